@@ -215,7 +215,7 @@ PROPS.update({
     "C01": dict(obs_prop(["EyeballVerif.Props.C01", "EyeballVerif.Lemmas.ObsInv"],
         "oinv_step / oinv_run: the invariant (observed <= version, observed < version <-> ghost flag 'has something it was not shown', closed <-> no owner, Arc counters = handle counts, parked -> registered) is "
         "preserved by every call; c01_poll_spec: the poll answer is End / Ready(latest) / Pending exactly per the ghost specification in every reachable world; c01_ready_clears, c01_write_marks, "
-        "c01_set_if_not_eq, c01_set_if_hash_not_eq, c01_update_if, c01_next_now_marks, c01_get_latest", [{"name": "obs"}]),
+        "c01_set_if_not_eq, c01_set_if_hash_not_eq, c01_update_if, c01_next_now_marks, c01_get_latest", [{"name": "obs"}, {"name": "conc"}]),
         claim=("Lean 4: the specification 'has something it was not shown' is a ghost flag per subscriber (set by notifying updates, reset, subscribe_reset, clone_reset; copied by clone; cleared by a ready poll, "
                "next_now, subscribe); oinv_run proves by induction over arbitrary call sequences (all 13 kinds of calls, any number of subscribers/clones/weak references) that the code's version-counter "
                "mechanism computes exactly this flag; c01_poll_spec: a poll is End iff closed, else Ready(latest value) iff flagged, else Pending; c01_ready_clears: delivered once; the setters' decision logic "
@@ -315,7 +315,7 @@ ENGINES = [
      "kind_free_text": "differential correspondence (real adapter pipelines vs Lean model Pipe) + implementation-side oracles on transparent taps between the stages"},
     {"name": "obs", "path": "harness/src/eng_obs.rs", "serves_properties": ["C01", "C02", "C03", "C19"],
      "kind_free_text": "differential correspondence (real Observable/SharedObservable/Subscriber, default lock flavour, vs Lean model OWorld) + specification-level oracle"},
-    {"name": "conc", "path": "harness/src/eng_conc.rs", "serves_properties": ["C02", "C03", "C04"],
+    {"name": "conc", "path": "harness/src/eng_conc.rs", "serves_properties": ["C01", "C02", "C03", "C04"],
      "kind_free_text": "real threads driven through every pause-point interleaving by a director (forced schedules) + free-running rounds; traces replayed on the Lean lock-level model"},
     {"name": "own", "path": "harness/src/eng_own.rs", "serves_properties": ["C20"],
      "kind_free_text": "instrumented element type (ids, drop registry) through observable histories (library-held ids compared with the Lean ledger after every call) and vector/adapter histories (invariants)"},
